@@ -28,7 +28,7 @@ def run(ctx):
 
     # ---------------------------------------------------------------- C05.1
     sites = [s for s in P.callers(APPEND) if s.fn.path.startswith(STORE)]
-    ctx.floor('C05.1', 'ContinuityStore append sites', len(sites), 14)
+    ctx.floor('C05.1', 'ContinuityStore append sites', len(sites), 13)
     for s in sites:
         f = s.fn
         edge = ok_edge_of_try(f, s)
@@ -36,16 +36,24 @@ def run(ctx):
             ctx.ob('C05.1', f, 'append-result-checked', False, 'the result of EventLog::append is not propagated with `?` — a failed append is followed by cache / broadcast effects', line=s.line)
             continue
         ctx.ob('C05.1', f, 'append-result-checked', True, 'append result is tested with `?`', line=s.line)
+        ev = f.root_local(s.args[1], through_calls=(r'::deref$', r'::as_ref$'))
+        here = [x for x in sites if x.fn is f]
+
+        def mine(cs):
+            # siblings of THIS append: the calls that carry its event (functions that emit several frames)
+            if len(here) <= 1 or ev is None:
+                return cs
+            return [c for c in cs if ev in reads_locals(f, c.args[1])]
         for nm, rx, full in (('sidecar', BEST_EFFORT, None), ('broadcast', SEND, r'Sender::<rip_kernel::Event>::send')):
-            cs = f.calls(rx, full=full)
+            cs = mine(f.calls(rx, full=full))
             if not cs:
                 ctx.ob('C05.1', f, nm + '-present', False, 'no %s effect follows the truth append: the frame is never mirrored' % nm, line=s.line)
                 continue
             for c in cs:
                 ok = f.edge_dom(edge[0], edge[1], c.bb)
                 ctx.ob('C05.1', f, nm + '-after-truth', ok, '%s is %s' % (c.name, 'reachable only after a successful truth append' if ok else 'reachable WITHOUT a successful truth append'), line=c.line)
-        be = f.calls(BEST_EFFORT)
-        sd = f.calls(SEND, full=r'Sender::<rip_kernel::Event>::send')
+        be = mine(f.calls(BEST_EFFORT))
+        sd = mine(f.calls(SEND, full=r'Sender::<rip_kernel::Event>::send'))
         if be and sd:
             ok = all(f.dom(b.bb, x.bb) for b in be for x in sd)
             ctx.ob('C05.1', f, 'sidecar-before-broadcast', ok, 'sidecar line is written before the frame is published', line=sd[0].line)
